@@ -441,3 +441,12 @@ case('benign-c14-so3-rename', ['C14', 'C11', 'C06'], [],
       "                let deviation = self.distance(center_rotation, &random_quat);\n                if deviation <= *max_angle {"))
 case('benign-c14-rv-inclusive', ['C14', 'C11', 'C12'], [],
      (RV, "            values.push(rng.random_range(lower..upper));", "            let coordinate = rng.random_range(lower..=upper);\n            values.push(coordinate);"))
+
+
+# ---------------------------------------------------------------- C11.accept (the SO2 defect repaired by cbdf97e)
+case('c11-so2-check-rewraps', ['C11'], ['C11.accept'],
+     (SO2, "        if value >= -PI && value <= PI {\n            return value >= lower && value <= upper;\n        }\n", ""))
+case('c11-so2-check-strict-upper', ['C11'], ['C11.accept'],
+     (SO2, "            return value >= lower && value <= upper;", "            return value >= lower && value < upper;"))
+case('benign-c11-so2-check-reordered', ['C11', 'C12', 'C14'], [],
+     (SO2, "            return value >= lower && value <= upper;", "            return value <= upper && value >= lower;"))
